@@ -390,6 +390,9 @@ class Bot:
         """Updates state of bot ready to ring the next row / stop ringing"""
         # Generate the next row and update row indices
         self._place = 0
+        # The calls of the row that has just finished have been made; forget them so that they
+        # are not repeated on rows which don't come from the row generator (e.g. closing rounds)
+        self._calls = []
         if is_first_row:
             self._row_number = 0
         else:
